@@ -104,13 +104,16 @@ def encode (type : Bytes) (bytes : Bytes) : Bytes :=
   let e := B64.enc bytes
   beginMark ++ type ++ dash5 ++ [nl] ++ lines (e.length + 1) e ++ endMark ++ type ++ dash5 ++ [nl]
 
-def tCertificate : Bytes := "CERTIFICATE".toUTF8.toList
-def tPrivateKey : Bytes := "PRIVATE KEY".toUTF8.toList
-def tRequest : Bytes := "CERTIFICATE REQUEST".toUTF8.toList
+def tCertificate : Bytes := [67, 69, 82, 84, 73, 70, 73, 67, 65, 84, 69]                                  -- "CERTIFICATE"
+def tPrivateKey : Bytes := [80, 82, 73, 86, 65, 84, 69, 32, 75, 69, 89]                                   -- "PRIVATE KEY"
+def tRequest : Bytes := [67, 69, 82, 84, 73, 70, 73, 67, 65, 84, 69, 32, 82, 69, 81, 85, 69, 83, 84]      -- "CERTIFICATE REQUEST"
+
+/-- `#HASH:` -/
+def hashPrefix : Bytes := [35, 72, 65, 83, 72, 58]
 
 /-- the text `exportPemFile` writes: hash line, then certificate, key, request as far as present -/
 def exportFile (hash : Bytes) (cert key csr : Option Bytes) : Bytes :=
-  "#HASH:".toUTF8.toList ++ B64.enc hash ++ [nl] ++
+  hashPrefix ++ B64.enc hash ++ [nl] ++
   (match cert with | some c => encode tCertificate c | none => []) ++
   (match key with | some k => encode tPrivateKey k | none => []) ++
   (match csr with | some r => encode tRequest r | none => [])
